@@ -367,6 +367,26 @@ func extractSearchNodeFromBooleanExpr(boolExpr *BoolExpr) *ast.Node {
 	return extraSearchNode
 }
 
+// A number as a free-text term is the comparison `* = n` (some field equals n). Under NOT it
+// arrives here as `* != n`, which the all-columns search reads as "some field differs from n"
+// and which then holds for every event. What is meant is the complement of `* = n`, so it
+// becomes a node that matches everything and excludes `* = n`. Returns nil for any other filter.
+func excludeNumberFromAllColumns(node *ast.Node, forceCaseSensitive bool, qid uint64) (*ASTNode, error) {
+	if node.Comparison.Field != "*" || node.Comparison.Op != "!=" {
+		return nil, nil
+	}
+	if _, ok := node.Comparison.Values.(json.Number); !ok {
+		return nil, nil
+	}
+	criteria, err := ast.ProcessSingleFilter(node.Comparison.Field, node.Comparison.Values, node.Comparison.OriginalValues, "=", node.Comparison.ValueIsRegex, node.Comparison.CaseInsensitive, node.Comparison.IsTerm, forceCaseSensitive, qid)
+	if err != nil {
+		return nil, err
+	}
+	subNode := createMatchAll(qid)
+	subNode.ExclusionFilterCondition = &Condition{FilterCriteria: []*FilterCriteria(criteria)}
+	return subNode, nil
+}
+
 // If forceCaseSensitive is true, then the search query will not consider any of the case-insensitive search options.
 func SearchQueryToASTnode(node *ast.Node, boolNode *ASTNode, qid uint64, forceCaseSensitive bool) error {
 	var err error
@@ -402,6 +422,18 @@ func SearchQueryToASTnode(node *ast.Node, boolNode *ASTNode, qid uint64, forceCa
 		}
 
 	case ast.NodeTerminal:
+		subNode, err := excludeNumberFromAllColumns(node, forceCaseSensitive, qid)
+		if err != nil {
+			log.Errorf("qid=%d, SearchQueryToASTnode: Error while processing negated number, error: %v", qid, err)
+			return err
+		}
+		if subNode != nil {
+			if boolNode.AndFilterCondition == nil {
+				boolNode.AndFilterCondition = &Condition{}
+			}
+			boolNode.AndFilterCondition.NestedNodes = append(boolNode.AndFilterCondition.NestedNodes, subNode)
+			return nil
+		}
 		criteria, err := ast.ProcessSingleFilter(node.Comparison.Field, node.Comparison.Values, node.Comparison.OriginalValues, node.Comparison.Op, node.Comparison.ValueIsRegex, node.Comparison.CaseInsensitive, node.Comparison.IsTerm, forceCaseSensitive, qid)
 		if err != nil {
 			log.Errorf("qid=%d, SearchQueryToASTnode: Error while processing single filter, error: %v", qid, err)
@@ -459,6 +491,15 @@ func parseORCondition(node *ast.Node, boolNode *ASTNode, qid uint64, forceCaseSe
 		}
 		return nil
 	case ast.NodeTerminal:
+		subNode, err := excludeNumberFromAllColumns(node, forceCaseSensitive, qid)
+		if err != nil {
+			log.Errorf("qid=%d, parseORCondition: Error while processing negated number, err: %v", qid, err)
+			return err
+		}
+		if subNode != nil {
+			boolNode.OrFilterCondition.NestedNodes = append(boolNode.OrFilterCondition.NestedNodes, subNode)
+			return nil
+		}
 		criteria, err := ast.ProcessSingleFilter(node.Comparison.Field, node.Comparison.Values, node.Comparison.OriginalValues, node.Comparison.Op, node.Comparison.ValueIsRegex, node.Comparison.CaseInsensitive, node.Comparison.IsTerm, forceCaseSensitive, qid)
 		if err != nil {
 			log.Errorf("qid=%d, parseORCondition: Error while processing single filter, err: %v", qid, err)
@@ -509,6 +550,15 @@ func parseANDCondition(node *ast.Node, boolNode *ASTNode, qid uint64, forceCaseS
 		}
 		return nil
 	case ast.NodeTerminal:
+		subNode, err := excludeNumberFromAllColumns(node, forceCaseSensitive, qid)
+		if err != nil {
+			log.Errorf("qid=%d, parseANDCondition: Error while processing negated number, err: %v", qid, err)
+			return err
+		}
+		if subNode != nil {
+			boolNode.AndFilterCondition.NestedNodes = append(boolNode.AndFilterCondition.NestedNodes, subNode)
+			return nil
+		}
 		criteria, err := ast.ProcessSingleFilter(node.Comparison.Field, node.Comparison.Values, node.Comparison.OriginalValues, node.Comparison.Op, node.Comparison.ValueIsRegex, node.Comparison.CaseInsensitive, node.Comparison.IsTerm, forceCaseSensitive, qid)
 		if err != nil {
 			log.Errorf("qid=%d, parseANDCondition: Error while processing single filter, err: %v", qid, err)
